@@ -410,9 +410,24 @@ def shim_resolver(repo):
         k = (repo, rel)
         if k not in _MODS:
             from irlib import compile_ir
-            _MODS[k] = compile_ir(os.path.join(repo, rel), repo, NOCTYPE, lang='c', inline=keep_all_but_new_helpers())
+            _MODS[k] = compile_ir(os.path.join(repo, rel), repo, NOCTYPE, lang='c', inline=keep_all_but_new_helpers(),
+                                  out_name='c11_order_%d_%s' % (os.getpid(), name))
         return _MODS[k].fn(name)
     return resolve
+
+
+def preload(repo, mod, seen=None):
+    """compile (in the parent, before the job processes are forked) every other shim unit the given unit calls into"""
+    seen = set() if seen is None else seen
+    res = shim_resolver(repo)
+    for f in mod.defined():
+        for c in f.calls():
+            n = c.callee
+            if n in SHIM_UNITS and n not in seen and (mod.fn(n) is None or mod.fn(n).decl):
+                seen.add(n)
+                g = res(n)
+                if g is not None:
+                    preload(repo, g.mod, seen)
 
 
 def show_text(chars):
@@ -578,6 +593,7 @@ def run_ext(rep, repo, tier):
             for n in range(bn, -1, -1):
                 jobs.append(('search', (repo, fname, n, K)))
     amod = ato_unit(repo)
+    preload(repo, amod)
     for fname in ('atol', 'atoi'):
         fn_of(amod, fname, ATOL_UNIT)
         for nd in range(1, ATO_DIGITS[fname] + 1):
